@@ -85,6 +85,10 @@ var c13Leaves = []syncLeaf{
 	{"/peer[name=n1][zone=z1]/as", "uint", false, []string{"1", "2"}},
 	{"/duo[k1=a][k2=b]/v", "string", false, []string{"p", "q"}},
 	{"/duo[k1=a][k2=a]/v", "string", false, []string{"p", "q"}},
+	// leaf-lists: reported with one update per element, the element as key of the last path element and no value
+	{"/if[name=e1]/addrs", "llkeys", false, []string{"LL:a1,a2", "LL:a3", "LL:a2,a1,a4"}},
+	{"/if[name=e10]/addrs", "llkeys", false, []string{"LL:b1,b2", "LL:b3"}},
+	{"/sys/dns", "llkeys", false, []string{"LL:d1,d2", "LL:d3"}},
 }
 
 var c13DeleteTargets = []string{"/if[name=e1]", "/if[name=e10]", "/if[name=e1]/unit[id=1]", "/sys/log", "/sys/mtu", "/if[name=e1]/mtu", "/duo[k1=a][k2=a]", "/ifx", "/if-x[name=e1]", "/sys/descr", "/peer[name=n1][zone=z1]"}
@@ -286,6 +290,13 @@ func (it syncItem) toSyncUpdate() *target.SyncUpdate {
 			tv = &sdcpb.TypedValue{Value: &sdcpb.TypedValue_JsonVal{JsonVal: b}}
 		case "typed":
 			tv = kindTv("uint", u.Val)
+		case "llkeys":
+			for _, el := range strings.Split(strings.TrimPrefix(u.Val, "LL:"), ",") {
+				p := model.Parse(u.Path)
+				p[len(p)-1].Keys = map[string]string{p[len(p)-1].Name: el}
+				n.Update = append(n.Update, &sdcpb.Update{Path: p.ToPb()})
+			}
+			continue
 		default:
 			tv = strTv(u.Val)
 		}
@@ -309,6 +320,13 @@ func (it syncItem) toGNMI() *gnmi.Notification {
 		case "typed":
 			x, _ := strconv.ParseUint(u.Val, 10, 64)
 			tv = &gnmi.TypedValue{Value: &gnmi.TypedValue_UintVal{UintVal: x}}
+		case "llkeys":
+			for _, el := range strings.Split(strings.TrimPrefix(u.Val, "LL:"), ",") {
+				p := model.Parse(u.Path)
+				p[len(p)-1].Keys = map[string]string{p[len(p)-1].Name: el}
+				n.Update = append(n.Update, &gnmi.Update{Path: fixture.ToGPath(p)})
+			}
+			continue
 		default:
 			tv = &gnmi.TypedValue{Value: &gnmi.TypedValue_StringVal{StringVal: u.Val}}
 		}
@@ -349,6 +367,9 @@ func genScript(rng *core.Rng, W int, allowMultiJSON bool) []syncItem {
 			form := "string"
 			if l.kind == "uint" && rng.Bool() {
 				form = "typed"
+			}
+			if l.kind == "llkeys" {
+				form = "llkeys"
 			}
 			it.Upds = append(it.Upds, syncUpd{Path: l.path, Val: l.vals[rng.Intn(len(l.vals))], Form: form})
 		}
@@ -665,6 +686,9 @@ func (c *c13) RunCase(w *core.Worker, idx int, seed uint64, res *core.CaseResult
 				form := "string"
 				if l.kind == "uint" && rng.Bool() {
 					form = "typed"
+				}
+				if l.kind == "llkeys" {
+					form = "llkeys"
 				}
 				cur.Upds = append(cur.Upds, syncUpd{Path: l.path, Val: l.vals[rng.Intn(len(l.vals))], Form: form})
 				if rng.Chance(1, 4) {
